@@ -1,7 +1,7 @@
 (* Props/C17.v — the property theorems for C17 (indexed FASTA random access).
    Only statements, `exact <lemma>` and Print Assumptions live here. *)
 From Coq Require Import ZArith List Bool String.
-From BNP Require Import Base.Prims Model.C17 Proofs.C17 Proofs.C17_index Gen.C17 Bridge.C17.
+From BNP Require Import Base.Prims Model.C17 Proofs.C17 Proofs.C17_index Proofs.C17_e2e Gen.C17 Bridge.C17.
 Import ListNotations.
 Open Scope Z_scope.
 
@@ -49,6 +49,26 @@ Theorem C17_index_correct :
   forall eol rs, eol_ok eol -> Forall rec_wf rs -> model_index (layout eol rs) = spec_index eol rs.
 Proof. exact model_index_layout. Qed.
 Print Assumptions C17_index_correct.
+
+(* End to end (T1 o T2/T3/T4): the index the library BUILDS from a FASTA file (any records with a non-empty sequence free
+   of line-break bytes and '>', any line width >= 1, LF or CRLF, last line short or full) has one row per record, in
+   order; its k-th row carries the record's name and reports the record's true length, fetching the whole contig through
+   it returns the record's sequence, and (LF files) fetching any in-bounds interval returns exactly that substring. *)
+Theorem C17_built_index_fetches :
+  forall eol fill rs k r,
+    eol_ok eol -> Forall rec_wf rs -> nth_error rs k = Some r ->
+    exists ix, nth_error (model_index (layout eol rs)) k = Some ix
+      /\ i_name ix = r_name r /\ contig_length ix = len (r_seq r)
+      /\ fetch_contig fill ix (layout eol rs) = r_seq r
+      /\ (eol = [10] -> forall a b, 0 <= a -> a <= b -> b <= len (r_seq r) ->
+            fetch_interval ix (layout eol rs) a b = slice a b (r_seq r)).
+Proof. exact built_index_fetches. Qed.
+Print Assumptions C17_built_index_fetches.
+
+Theorem C17_built_index_rows :
+  forall eol rs, eol_ok eol -> Forall rec_wf rs -> List.length (model_index (layout eol rs)) = List.length rs.
+Proof. exact model_index_length. Qed.
+Print Assumptions C17_built_index_rows.
 
 (* T4: the reported contig length is the sequence length column of the index. *)
 Theorem C17_contig_length : forall ix, contig_length ix = i_rlen ix.
